@@ -200,6 +200,17 @@ Theorem c16_u2f_no_replay_after_overlap_seg : forall (s1 : list nat) (n : nat),
   ~ (resp_at w2 1 = Some 200 /\ resp_at w2 2 = Some 200).
 Proof. exact u2f_no_replay_after_overlap_seg. Qed.
 
+(* ... in the form of one replayed schedule: entries of requests 0 and 1, then entries of request 2 only *)
+Theorem c16_u2f_no_replay_replayed_schedule : forall (s1 : list nat) (k : nat),
+  Forall (fun i => (i < 2)%nat) s1 ->
+  let w0 := init_world ex_db [(M_localAuth, 1, 3)]
+              [handler (HU2fSignReq 1 4); handler (HU2fSignResp 1 3); handler (HU2fSignResp 1 3)] in
+  let w1 := run_seg w0 s1 in
+  answered w1 0 = true -> answered w1 1 = true ->
+  let w2 := run_seg w0 (s1 ++ repeat 2%nat k) in
+  ~ (resp_at w2 1 = Some 200 /\ resp_at w2 2 = Some 200).
+Proof. exact u2f_no_replay_replayed_schedule. Qed.
+
 (* FALSE for a sign request that hands the pending challenge out again, looked up in one critical section
    and stored in a second one (NOT the code): the lookup finds the pending challenge, the sign response
    verifies the answer and deletes the challenge, the request writes the consumed challenge back; the same
